@@ -3,6 +3,7 @@
 Pure standard library. Nothing from the analysed repository is imported or executed.
 """
 import ast
+import re
 import hashlib
 import os
 import sys
@@ -627,7 +628,9 @@ class Repo:
                 for ty in types:
                     if ty and ty[0] == 'tuple' and i < len(ty[1]):
                         sub.add(ty[1][i])
-                self._bind_target(f, e, sub, add)
+                    elif ty and ty[0] == 'list':
+                        sub.add(ty if isinstance(e, ast.Starred) else ty[1])
+                self._bind_target(f, e.value if isinstance(e, ast.Starred) else e, sub, add)
 
     @staticmethod
     def _elem(t):
@@ -1117,6 +1120,27 @@ class CallGraph:
                         s.kind = 'builtin'
                         s.ext = fn.id
                     return s
+                a0 = call.args[0]
+                if isinstance(a0, ast.Name):
+                    # the name bound by `except ... as e`: an exception object; only exception classes of the repo can supply __str__
+                    h = getattr(call, '_parent', None)
+                    while h is not None and not (isinstance(h, ast.ExceptHandler) and h.name == a0.id):
+                        h = getattr(h, '_parent', None)
+                    if h is not None and not any(isinstance(x, ast.Name) and x.id == a0.id and isinstance(x.ctx, ast.Store) for b_ in h.body for x in ast.walk(b_)):
+                        def is_exc(k, seen=()):
+                            for b in k.bases:
+                                if isinstance(b, ClassInfo):
+                                    if b not in seen and is_exc(b, seen + (k,)):
+                                        return True
+                                elif re.search(r'(Error|Exception|Warning|Exit|Interrupt)$', str(b[1])):
+                                    return True
+                            return False
+                        s.kind = 'virtual'
+                        s.targets.update(k.methods[dunder] for k in repo.classes.values() if dunder in k.methods and is_exc(k))
+                        if not s.targets:
+                            s.kind = 'builtin'
+                            s.ext = fn.id
+                        return s
                 s.kind = 'cha'
                 s.ext = fn.id
                 s.targets.update(k.methods[dunder] for k in repo.classes.values() if dunder in k.methods)
